@@ -236,6 +236,7 @@ fn cases_for(prop: &str, thorough: bool) -> u64 {
     match prop {
         "C15" | "C20" => q(300_000, 2_000_000),
         "C16" => q(400_000, 4_000_000),
+        "C17" => q(200_000, 2_000_000),
         p if BUILDER.contains(&p) => q(300_000, 3_000_000),
         _ => q(300_000, 4_000_000),
     }
